@@ -39,7 +39,7 @@ fixes = []
 kf = os.path.join(HERE, "known_findings.json")
 m = {
     "version": 1,
-    "setup_cmd": "cd /verif/driver && CARGO_NET_OFFLINE=true cargo +nightly build --release --offline",
+    "setup_cmd": "cd /verif/driver && CARGO_NET_OFFLINE=true cargo +nightly build --release --offline && cd /verif && CARGO_NET_OFFLINE=true python3 tools/warm.py",
     "hooks": {
         "guard": "none (no hooks: the analysis reads the compiler's own representation of the unmodified sources)",
         "enable": "not needed; checks compile /repo with `cargo +nightly check --offline --lib [--features ...]` through the qxfacts driver (RUSTC_WORKSPACE_WRAPPER)",
